@@ -22,14 +22,14 @@ func (c14) Budget(tier string) (int, int) {
 	return 40000, 25
 }
 func (c14) Rule() string {
-	return "seeded histories of 1-12 calls of Valid / SkipValue / SkipValueFast / HandleArrayValues / HandleObjectValues that all pass the same Buffer (sometimes two, alternating), on documents of every class so that the history contains successes, syntax failures, depth-limit exits (10,001+), truncated documents and traversals aborted by an injected handler error. Faults: B-scribble / B-resize (every element of the stack incl. spare capacity overwritten with negative, huge and plausible state numbers, length reset to 0/1/len-1/len/2/cap/nil) between calls and inside callbacks; H-reenter: the handler re-enters the library (SkipValue, SkipValueFast, Valid, nested Handle*, ReadValue) on the member, on the whole document or on a deeper document, with the enclosing call's own Buffer / a second Buffer / nil; nested traversals sharing the Buffer at several levels. Oracle: every call is executed a second time on a fresh copy of the input with no Buffer anywhere and the same decision tape; result, offset, error identity and the full callback history (incl. results of re-entrant calls) must be identical. Non-trivial: >= 2 calls touched the Buffer or a fault fired; distinct = distinct hashes of (operation, document class, outcome, decisions, scribbles) sequences."
+	return "seeded histories of 1-12 calls of Valid / SkipValue / SkipValueFast / HandleArrayValues / HandleObjectValues that all pass the same Buffer (sometimes two, alternating), on documents of every class so that the history contains successes, syntax failures, depth-limit exits (10,001+), truncated documents and traversals aborted by an injected handler error. Faults: B-scribble / B-resize (every element of the stack incl. spare capacity overwritten with negative, huge and plausible state numbers, length reset to 0/1/len-1/len/2/cap/nil) between calls and inside callbacks; H-reenter: the handler re-enters the library (SkipValue, SkipValueFast, Valid, nested Handle*, ReadValue) on the member, on the whole document or on a deeper document, with the enclosing call's own Buffer / a second Buffer / nil; nested traversals sharing the Buffer at several levels. Inputs are fresh copies or live in one reused read buffer (same address for every call, sometimes same length with different bytes); some cheap calls are repeated 300-12,000 times. Oracle: every call is executed a second time on a fresh copy of the input with no Buffer anywhere and the same decision tape; result, offset, error identity and the full callback history (incl. results of re-entrant calls) must be identical. Non-trivial: >= 2 calls touched the Buffer or a fault fired; distinct = distinct hashes of (operation, document class, outcome, decisions, scribbles) sequences."
 }
 func (c14) Assumptions() []string {
 	return []string{"self-differential: the no-Buffer execution of the same code is the reference, so changes to what the parser accepts do not raise C14 alarms", "documents and decision tapes are sampled"}
 }
 func (c14) Required(tier string) []string {
 	return []string{"B-scribble", "B-resize", "H-reenter", "H-error", "H-nested", "reenter-with-enclosing-buffer", "reentrant-call-grew-shared-stack", "scribble-inside-callback",
-		"call-after-failed-call", "call-after-depth-limit-exit", "call-after-handler-abort", "stack-grown-by-call", "call-on-prewarmed-stack"}
+		"call-after-failed-call", "call-after-depth-limit-exit", "call-after-handler-abort", "stack-grown-by-call", "call-on-prewarmed-stack", "input-in-reused-arena", "same-address-same-length-different-bytes", "history-of-10000-calls"}
 }
 
 var bufOps = []string{"Valid", "SkipValue", "SkipValueFast", "HandleArrayValues", "HandleObjectValues"}
@@ -57,7 +57,7 @@ func genC14Tape(r *Rand, n int) []int {
 		case 4:
 			t[i] = mkDec(dNested, r.Intn(2)+2*[]int{0, 0, 1, 2}[r.Intn(4)])
 		case 5:
-			t[i] = mkDec(dHostile, r.Intn(24))
+			t[i] = mkDec(dHostile, r.Intn(nHostile))
 		}
 		// the entry after a re-entry is its scribble pattern / follow-up decision: leave random
 	}
@@ -108,6 +108,11 @@ func (c14) Gen(r *Rand, sc *Scenario, tier string) {
 			sc.Docs = append(sc.Docs, deepDoc(r.Intn(3), []int{5, 60, 900, 9999, 10001}[r.Intn(5)], "1"))
 			op.Doc2 = len(sc.Docs) - 1
 		}
+		op.B = r.Intn(4) // bit 0: struct handler; bit 1: input lives in a reused arena (same address for every call)
+		if sc.Docs[op.Doc].Len() < 200 && r.Chance(1, 25) {
+			// very long histories of cheap calls: state that only builds up over thousands of uses
+			op.Rep = []int{300, 10001, 12000}[r.Intn(3)]
+		}
 		if !faultFree {
 			op.Tape = genC14Tape(r, r.Range(0, 30))
 			if r.Chance(1, 2) {
@@ -119,7 +124,40 @@ func (c14) Gen(r *Rand, sc *Scenario, tier string) {
 		} else {
 			op.Tape = genDecisionTape(r, r.Range(0, 30), true)
 		}
+		if op.Rep > 1 {
+			// thousands of repetitions: keep each one cheap (no re-entrance into deep documents)
+			op.Tape = genDecisionTape(r, r.Range(0, 12), false)
+			if r.Chance(1, 2) {
+				op.Tape = append(op.Tape, mkDec(dError, r.Intn(nErrKinds)))
+			}
+		}
 		ops = append(ops, op)
+		if r.Chance(1, 8) && sc.Docs[op.Doc].Len() > 0 && sc.Docs[op.Doc].Len() < 5000 {
+			// the caller overwrites its read buffer with a different message of the same length and
+			// calls again: same address, same length, different bytes
+			b := sc.Docs[op.Doc].Bytes()
+			for k := 0; k < 8; k++ {
+				i := r.Intn(len(b))
+				switch b[i] {
+				case ',', ':':
+					b[i] = ' '
+				case '"':
+					b[i] = 'q'
+				case ' ':
+					b[i] = ','
+				default:
+					if k < 7 {
+						continue
+					}
+					b[i] = mutBytes[r.Intn(len(mutBytes))]
+				}
+				break
+			}
+			sc.Docs = append(sc.Docs, docOf(b, sc.Docs[op.Doc].Class+"-samelen"))
+			ops[len(ops)-1].B |= 2
+			op2 := Op{Kind: bufOps[r.Intn(3)], Doc: len(sc.Docs) - 1, Doc2: op.Doc2, A: op.A, B: op.B | 2, Tape: genDecisionTape(r, 8, false)}
+			ops = append(ops, op2)
+		}
 	}
 	sc.Tasks = [][]Op{ops}
 }
@@ -131,12 +169,27 @@ func (c14) Exec(sc *Scenario, st *Stats) *Violation {
 	bufs := []*rjson.Buffer{{}, {}}
 	lastFailed, lastDepthExit, lastAbort := false, false, false
 	touched := 0
+	maxLen := 0
+	for _, d := range sc.Docs {
+		if d.Len() > maxLen {
+			maxLen = d.Len()
+		}
+	}
+	// read buffers that are reused for every call that asks for it: same address every time
+	arenaA, arenaB := make([]byte, maxLen), make([]byte, maxLen)
 	for oi, op := range sc.Tasks[0] {
 		if op.Doc >= len(sc.Docs) {
 			continue
 		}
 		d := sc.Docs[op.Doc]
 		dataA, dataB := d.Bytes(), d.Bytes()
+		if op.B&2 != 0 {
+			dataA, dataB = arenaA[:copy(arenaA, dataA)], arenaB[:copy(arenaB, dataB)]
+			st.probe("input-in-reused-arena")
+			if len(d.Class) > 8 && d.Class[len(d.Class)-8:] == "-samelen" {
+				st.probe("same-address-same-length-different-bytes")
+			}
+		}
 		var d2A, d2B []byte
 		if op.Doc2 < len(sc.Docs) {
 			d2A, d2B = sc.Docs[op.Doc2].Bytes(), sc.Docs[op.Doc2].Bytes()
@@ -164,10 +217,24 @@ func (c14) Exec(sc *Scenario, st *Stats) *Violation {
 		st.ev(op.Kind)
 		st.ev(d.Class)
 		st.evi("scribble", b2i(op.C != 0))
-		xA := &opCtx{st: st, tape: NewTape(op.Tape), buf: buf, doc2: d2A}
-		outA := runAPI(op.Kind, xA, dataA)
-		xB := &opCtx{st: st, tape: NewTape(op.Tape), noBuf: true, doc2: d2B, quiet: true}
-		outB := runAPI(op.Kind, xB, dataB)
+		reps := op.Rep
+		if reps < 1 {
+			reps = 1
+		}
+		if reps >= 10000 {
+			st.probe("history-of-10000-calls")
+		}
+		var outA, outB Outcome
+		var xA, xB *opCtx
+		for rep := 0; rep < reps; rep++ {
+			xA = &opCtx{st: st, tape: NewTape(op.Tape), buf: buf, doc2: d2A, structH: op.B&1 != 0, quiet: rep > 0}
+			outA = runAPI(op.Kind, xA, dataA)
+			xB = &opCtx{st: st, tape: NewTape(op.Tape), noBuf: true, doc2: d2B, quiet: true, structH: op.B&1 != 0}
+			outB = runAPI(op.Kind, xB, dataB)
+			if rep < reps-1 && diffOutcome(outA, outB) != "" {
+				break
+			}
+		}
 		touched++
 		if touched >= 2 {
 			st.NonTrivial = true
